@@ -13,6 +13,7 @@ func genC14(t *rapid.T) Case {
 		RootStyle: rapid.SampledFrom([]int{0, 0, 0, 1, 2, 3}).Draw(t, "rootStyle")}
 	c.Keys = GenKeys(t, 2, 4, true)
 	c.KeysHex = GenBinKeys(t)
+	c.Workers = rapid.SampledFrom([]int{0, 0, 1, 1, 3, 8}).Draw(t, "workers")
 	c.Ops = GenTxOps(t, TxGenOpts{MinOps: 5, MaxOps: 80, Weights: map[string]int{
 		"begin": 6, "set": 14, "del": 4, "commit": 6, "rollback": 3, "gc": 1}})
 	return c
